@@ -199,8 +199,10 @@ func (o *object) call(this Value, argumentList []Value, eval bool, frm frame) Va
 
 	case bindFunctionObject:
 		// TODO Passthrough site, do not enter a scope
-		argumentList = append(fn.argumentList, argumentList...)
-		return fn.target.call(fn.this, argumentList, false, frm)
+		// 15.3.4.5.1: the bound arguments followed by the call's, in a list of its own
+		// (appending in place would write into the spare capacity of the stored slice).
+		bound := fn.argumentList[:len(fn.argumentList):len(fn.argumentList)]
+		return fn.target.call(fn.this, append(bound, argumentList...), false, frm)
 
 	case nodeFunctionObject:
 		rt := o.runtime
